@@ -122,6 +122,19 @@ def r1(F, R):
                         allowed = why
                 if "PoisonError" in e and o.kind == "panics":
                     allowed = ALLOWED[("*", "Mutex::lock", "panics")]
+                if "PoisonError" in e and o.kind == "discarded" and "unwrap_or_else" in str(o.detail):
+                    # `lock().unwrap_or_else(|p| p.into_inner())`: the poison flag is ignored and the guard recovered - no fault is lost,
+                    # poisoning only records that another thread panicked (and that panic is reported where it happened)
+                    rec = False
+                    for _b2, t2 in b.calls():
+                        c2 = t2["callee"]
+                        if strip_generics(c2.get("path", "")).endswith("Result::unwrap_or_else") and c2.get("closures"):
+                            for cp in c2["closures"]:
+                                cb2 = F.bodies.get(cp)
+                                if cb2 is not None and any(strip_generics(t3["callee"].get("path", "")).endswith("PoisonError::into_inner") for _b3, t3 in cb2.calls()):
+                                    rec = True
+                    if rec:
+                        allowed = "poisoned lock recovered with PoisonError::into_inner"
                 if role == "controller" and o.kind == "discarded" and path_ends(cpath, "Sender::send") and "SendError<sampler::ChainCommand>" in e:
                     # ChainProcess::pause / resume written in place: the same send, the same reason
                     allowed = ALLOWED[("controller", "ChainProcess::pause", "discarded")]
